@@ -2,6 +2,7 @@ import TsVerif.Common.IO
 import TsVerif.C07.Judge
 import TsVerif.C07.Ranges
 import TsVerif.C07.Walks
+import TsVerif.C06.Sexp
 /-!
 Driver for C07.  Input lines (written by harness/src/bin/c07.rs):
 
@@ -38,11 +39,41 @@ structure St where
   n : Nat := 0
   /-- `list.size` the REAL capture-list pool reported after the previous operation -/
   clRealSize : Nat := 0
+  -- ts_node_string cases
+  langs : List (String × TsVerif.C02.Lang) := []
+  defLang : Option (String × TsVerif.C02.Lang) := none
+  inSexp : Bool := false
+  sexpHead : List String := []
 
 def kvGet (ws : List String) (k : String) : String :=
   (ws.findSome? fun w => match w.splitOn "=" with | [a, b] => if a == k then some b else none | _ => none).getD ""
 
+def unhexStr (h : String) : String := TsVerif.C02.hexString h
+
 def step (s : St) (line : String) : IO St := do
+  -- language tables for the port of the S-expression writer
+  if let some (id, l) := s.defLang then
+    if line == "enddeflang" then return { s with defLang := none, langs := (id, l) :: s.langs }
+    else return { s with defLang := some (id, l.addLine line) }
+  if s.inSexp then
+    if line == "endsexp" then
+      let ws := s.sexpHead
+      let id := ws.headD "?"
+      let len := natOf (kvGet ws "len")
+      let alloc := natOf (kvGet ws "alloc")
+      let real := unhexStr (kvGet ws "str")
+      let corr := match s.langs.lookup (kvGet ws "lang"), parseDump s.lines.toList with
+        | some lang, some d =>
+          let m := TsVerif.C06.nodeString lang d.root 0
+          if m == real then "ok" else s!"DIFF:port-of-ts_subtree__write_to_string:{m.replace " " "_"}:real:{real.replace " " "_"}"
+        | _, _ => "na"
+      -- the buffer comes from the MEASURING pass, the content from the WRITING pass
+      let j := if alloc != len + 1 then s!"FAIL:string-buffer:ts_node_string:allocated:{alloc}:written-incl-terminator:{len + 1}:{real.replace " " "_"}"
+        else if kvGet ws "tail" != "1" then "FAIL:string-buffer:ts_node_string:guard-bytes-overwritten"
+        else "ok"
+      IO.println s!"{id} kind=sexp corr={corr} judge={j} len={len}"
+      return { s with inSexp := false, lines := #[], sexpHead := [] }
+    else return { s with lines := s.lines.push line }
   if s.inDump then
     if line == "enddump" then
       let j := match parseDump s.lines.toList with
@@ -160,6 +191,13 @@ def step (s : St) (line : String) : IO St := do
       else if natOf (kvGet ws "allocs") + natOf (kvGet ws "copyallocs") != natOf (kvGet ws "frees") then "FAIL:ess:allocations-not-balanced"
       else "ok"
     IO.println s!"{id} kind=ess corr={corr} judge={j} len={len}"
+    return s
+  | ["deflang", id] => return { s with defLang := some (id, {}) }
+  | "sexproot" :: ws => return { s with inSexp := true, sexpHead := ws, lines := #[] }
+  | "sexpnode" :: id :: ws =>
+    -- only written when the two passes disagree for an inner node
+    let real := unhexStr (kvGet ws "str")
+    IO.println s!"{id} kind=sexp corr=na judge=FAIL:string-buffer:ts_node_string:allocated:{kvGet ws "alloc"}:written-incl-terminator:{natOf (kvGet ws "len") + 1}:tail:{kvGet ws "tail"}:{real.replace " " "_"}"
     return s
   | "crq" :: id :: rest =>
     -- ts_range_array_get_changed_ranges on two range lists, arrays flush against a guard page
